@@ -138,7 +138,7 @@ class C13(Prop):
     ASSUMPTIONS = [
         "PROOF level (Properties/C13.v): clone isolation over all histories, typing and visibility of define_symbol, "
         "transparency and per-scan lifetime of the hash cache, schedule independence of a small-step system with "
-        "private per-scan state — the last under the Section hypothesis `pool_irrelevant` (what a step returns does "
+        "private per-scan state — the last under the explicit premise `pool_content_irrelevant` (what a step returns does "
         "not depend on the content of the shared cache pools: regex-automata's contract for `Cache`, not proved)",
         "EXPLORATION level (conc cases): that the real scan has no other shared mutable state than those pools, and "
         "what the OS scheduler does, is only sampled: 1-16 threads with yields; a data race that needs a specific "
